@@ -37,6 +37,8 @@ def run_case(ctx, case, ir):
     size, row0, col0 = size0 + case['pad'], case['row0'], case['col0']
     for k in ('Nxx_cte', 'Nyy_cte', 'Nxy_cte'):
         setattr(p, k, case.get(k))
+    if case.get('force_ortho'):
+        p.force_orthotropic_laminate = True
     raw = pc.quiet(p.calc_k0, size=size, row0=row0, col0=col0, silent=True, finalize=False).toarray()
     y12 = (case['y1'], case['y2']) if case['y1'] is not None else None
     kname = 'fk0y1y2' if y12 else 'fk0'
@@ -53,7 +55,8 @@ def run_case(ctx, case, ir):
         v_bad = 'translated %s interpreted on this panel differs from Panel.calc_k0(finalize=False): rel %.3e' % (kname, d)
     # property predicate on the implementation
     full = pc.quiet(p.calc_k0, size=size, row0=row0, col0=col0, silent=True, finalize=True).toarray()
-    want = panel_v.oracle_matrix(case['model'], p, 'k0', {}, size, row0, col0, y12)
+    # the laminate of the oracle is computed from the case data by an independent lamination theory (not read from the panel)
+    want = panel_v.oracle_matrix(case['model'], p, 'k0', {}, size, row0, col0, y12, F=pc.independent_ABD(case))
     if any(ncte):
         want = want + panel_v.oracle_matrix(case['model'], p, 'kG0', dict(Nxx=ncte[0], Nyy=ncte[1], Nxy=ncte[2]),
                                             size, row0, col0, y12)
@@ -87,6 +90,7 @@ def gen(ctx, rng):
     case['col0'] = case['row0']      # a panel occupies the same range of rows and columns
     if rng.random() < 0.35:
         case['Nxx_cte'], case['Nyy_cte'], case['Nxy_cte'] = gen_preload(rng)
+    case['force_ortho'] = rng.random() < 0.2           # Panel.force_orthotropic_laminate (rarely used option)
     return case
 
 
